@@ -234,7 +234,7 @@ func TestVerifC36(t *testing.T) {
 	}
 	rec.Check(t, func(rt *rapid.T) {
 		res := rapid.SampledFrom([]int64{res5m, res5m, res1h}).Draw(rt, "res")
-		xs, mode := genGauge(rt, res)
+		xs, mode := genGauge(rt, res, false)
 		msg, info := checkC36(xs, res)
 		if msg != "" {
 			rt.Fatalf("C36 violated: %s\nres=%d raw: %s", msg, res, renderSamples(xs, 400))
